@@ -84,8 +84,8 @@ func rule131(r *core.Run, ctx *oblig.Ctx, fn *ssa.Function) {
 				okG := true
 				for _, g := range core.GuardsOf(m) {
 					gs := r.P.SliceOf(g.If.Cond, core.SliceOpts{Depth: -1, Control: true})
-					if gs.Has("field:gofakes3.ListBucketVersionsResult.IsTruncated") || gs.Has("const:nil") {
-						continue
+					if gs.Has("field:gofakes3.ListBucketVersionsResult.IsTruncated") || gs.Has("const:nil") || gs.HasValue(st.Val) {
+						continue // a test of the stored flag (through the field or the local it was stored from), or a nil test
 					}
 					if core.Dominates(g.If, st) {
 						continue // a guard that also guards the IsTruncated store
@@ -280,18 +280,26 @@ func rule135(r *core.Run, ctx *oblig.Ctx, fn *ssa.Function) {
 	}
 	// the bound test
 	var bound *ssa.If
+	var boundCond ssa.Value
 	core.Instrs(fn, func(in ssa.Instruction) {
 		iff, ok := in.(*ssa.If)
 		if !ok {
 			return
 		}
-		cd := core.CondOf(iff.Cond)
-		if cd.Op != token.GEQ && cd.Op != token.GTR && cd.Op != token.EQL {
-			return
-		}
-		s := r.P.SliceOfMany([]ssa.Value{cd.X, cd.Y}, core.SliceOpts{Depth: -1})
-		if s.Has("field:gofakes3.ListBucketVersionsPage.MaxKeys") && s.Has("const:1") {
-			bound = iff
+		// the condition itself, or — for a test of a boolean merged from `a && b` / a named flag — the
+		// operand the true outcome must have come from
+		for _, ec := range expandGuard(iff, true) {
+			if ec.merged || !ec.truth {
+				continue
+			}
+			cd := core.CondOf(ec.cond)
+			if cd.Op != token.GEQ && cd.Op != token.GTR && cd.Op != token.EQL {
+				continue
+			}
+			s := r.P.SliceOfMany([]ssa.Value{cd.X, cd.Y}, core.SliceOpts{Depth: -1})
+			if s.Has("field:gofakes3.ListBucketVersionsPage.MaxKeys") && s.Has("const:1") {
+				bound, boundCond = iff, ec.cond
+			}
 		}
 	})
 	if bound == nil {
@@ -308,12 +316,16 @@ func rule135(r *core.Run, ctx *oblig.Ctx, fn *ssa.Function) {
 		c2 := core.CondOf(iff.Cond)
 		if k, isK := core.ConstInt(c2.Y); isK && k == 0 && c2.Op == token.GTR && !c2.Neg {
 			s := r.P.SliceOf(c2.X, core.SliceOpts{Depth: -1})
-			if s.Has("field:gofakes3.ListBucketVersionsPage.MaxKeys") && core.GuardedBy(bound, iff, true) {
+			var guarded ssa.Instruction = bound
+			if bi, ok := boundCond.(ssa.Instruction); ok && boundCond != bound.Cond {
+				guarded = bi // the comparison sits behind the `MaxKeys > 0 &&` of a merged condition
+			}
+			if s.Has("field:gofakes3.ListBucketVersionsPage.MaxKeys") && core.GuardedBy(guarded, iff, true) {
 				bypass = iff
 			}
 		}
 	})
-	cd := core.CondOf(bound.Cond)
+	cd := core.CondOf(boundCond)
 	r.Check(cd.Op == token.GEQ, "R13.5", key(name, "bound is cnt >= MaxKeys"), pos(r, bound), "counter >= MaxKeys", "the page bound is not 'counter >= MaxKeys' (off by one lets a page exceed max-keys)")
 	for i, ap := range appends {
 		// from the append, every path to another append passes the bound test
@@ -833,29 +845,35 @@ func rule1311(r *core.Run) {
 		rets = append(rets, ret)
 	}
 	reach := func(assume map[ssa.Value]bool, val string) string {
+		want := val == "true"
 		for _, ret := range rets {
 			if len(ret.Results) != 1 {
 				continue
 			}
-			switch v := ret.Results[0].(type) {
-			case *ssa.Const:
-				if v.Value != nil && v.Value.String() == val && core.ReachableTrackingFlags(nil, ret, assume, nil) {
-					return pos(r, ret)
-				}
-			default:
-				// merged result: judge each constant edge by the reachability of its predecessor block
-				if ph, ok := v.(*ssa.Phi); ok {
-					for i, e := range ph.Edges {
-						c, isC := e.(*ssa.Const)
-						if !isC || c.Value == nil || c.Value.String() != val || i >= len(ph.Block().Preds) {
-							continue
-						}
-						pred := ph.Block().Preds[i]
-						if core.ReachableTrackingFlags(nil, pred.Instrs[len(pred.Instrs)-1], assume, nil) {
-							return pos(r, ret)
-						}
+			vals, ok := core.ValuesOnPathsAssuming(nil, ret, ret.Results[0], assume)
+			if !ok {
+				return pos(r, ret) + " (exploration cut off)"
+			}
+			for _, v := range vals {
+				neg := false
+				for k := 0; k < 3; k++ {
+					if u, isU := v.(*ssa.UnOp); isU && u.Op == token.NOT {
+						v, neg = u.X, !neg
 					}
 				}
+				if c, isC := v.(*ssa.Const); isC && c.Value != nil {
+					if (c.Value.String() == "true") != neg == want {
+						return pos(r, ret)
+					}
+					continue
+				}
+				if t, has := assume[v]; has {
+					if (t != neg) == want {
+						return pos(r, ret)
+					}
+					continue
+				}
+				return pos(r, ret) + " (value not decided by the assumptions)"
 			}
 		}
 		return ""
